@@ -716,6 +716,8 @@ enum Pos {
     Root,
     Field,
     SeqItem,
+    /// `v: <scalar>` read into a field of type Option<T>
+    OptField,
 }
 #[derive(Clone, Copy, Debug, Serialize, Deserialize, PartialEq, Eq)]
 enum Target {
@@ -783,7 +785,7 @@ fn document(content: &str, style: Style, tag: Tag, pos: Pos) -> String {
         Pos::Root => {
             if st == Style::Literal { "--- " } else { "" }
         }
-        Pos::Field => "v: ",
+        Pos::Field | Pos::OptField => "v: ",
         Pos::SeqItem => "- ",
     };
     format!("{head}{}{scalar}\n", tag.text())
@@ -799,6 +801,12 @@ fn de<T: DeserializeOwned>(doc: &str, pos: Pos, o: &DeOpts) -> Result<T, String>
         Pos::Root => serde_saphyr::from_str_with_options::<T>(doc, opts),
         Pos::Field => serde_saphyr::from_str_with_options::<Holder<T>>(doc, opts).map(|h| h.v),
         Pos::SeqItem => serde_saphyr::from_str_with_options::<(T,)>(doc, opts).map(|h| h.0),
+        Pos::OptField => {
+            return match serde_saphyr::from_str_with_options::<Holder<Option<T>>>(doc, opts) {
+                Ok(h) => h.v.ok_or_else(|| "deserialized as None".to_string()),
+                Err(e) => Err(format!("{}", e.without_snippet())),
+            };
+        }
     };
     r.map_err(|e| format!("{}", e.without_snippet()))
 }
@@ -1500,6 +1508,67 @@ fn unitized_s() -> BoxedStrategy<Expr> {
     let atom2 = prop_oneof![3 => atom, 1 => (l1.clone(), ws_s()).prop_map(|(e, w)| Prim::Paren(Box::new(e), w))].boxed();
     prop_oneof![2 => l1, 1 => level(atom2)].boxed()
 }
+/// post-processing of a drawn expression so that the documented domain dominates:
+/// blanks: mode 0 none, 1 spaces only, 2 any; nested unit functions become parentheses and blanks
+/// between unary signs are removed unless asked for
+fn tidy(e: &mut Expr, ws_mode: u8, keep_nested: bool, keep_sign_blanks: bool, in_func: bool) {
+    let w = |x: &mut Ws| match ws_mode {
+        0 => *x = 0,
+        1 => {
+            if *x % 7 >= 3 {
+                *x = 1
+            }
+        }
+        _ => {}
+    };
+    let mut terms: Vec<&mut Term> = vec![&mut e.first];
+    for r in e.rest.iter_mut() {
+        w(&mut r.0);
+        terms.push(&mut r.2);
+    }
+    for t in terms {
+        let mut us: Vec<&mut Unary> = vec![&mut t.first];
+        for r in t.rest.iter_mut() {
+            w(&mut r.0);
+            us.push(&mut r.2);
+        }
+        for u in us {
+            w(&mut u.lead);
+            let n = u.signs.len();
+            for (i, s) in u.signs.iter_mut().enumerate() {
+                w(&mut s.1);
+                if !keep_sign_blanks && i + 1 < n {
+                    s.1 = 0;
+                }
+            }
+            if in_func && !keep_nested {
+                if let Prim::Func(_, _, inner, w2) = &u.prim {
+                    u.prim = Prim::Paren(inner.clone(), *w2);
+                }
+            }
+            match &mut u.prim {
+                Prim::Paren(inner, w1) => {
+                    w(w1);
+                    tidy(inner, ws_mode, keep_nested, keep_sign_blanks, in_func);
+                }
+                Prim::Func(_, w1, inner, w2) => {
+                    w(w1);
+                    w(w2);
+                    tidy(inner, ws_mode, keep_nested, keep_sign_blanks, true);
+                }
+                _ => {}
+            }
+        }
+    }
+}
+fn tidy_s(inner: BoxedStrategy<Expr>) -> BoxedStrategy<Expr> {
+    (inner, prop_oneof![3 => Just(0u8), 4 => Just(1u8), 2 => Just(2u8)], proptest::bool::weighted(0.12), proptest::bool::weighted(0.1))
+        .prop_map(|(mut e, m, nest, sb)| {
+            tidy(&mut e, m, nest, sb, false);
+            e
+        })
+        .boxed()
+}
 fn tag_s(deg_w: u32) -> impl Strategy<Value = Tag> + Clone {
     prop_oneof![6 => Just(Tag::None), 3 => Just(Tag::Radians), deg_w => Just(Tag::Degrees), 1 => Just(Tag::Float), 1 => Just(Tag::Custom)]
 }
@@ -1507,7 +1576,7 @@ fn style_s() -> impl Strategy<Value = Style> + Clone {
     prop_oneof![4 => Just(Style::Plain), 3 => Just(Style::Double), 1 => Just(Style::Single), 1 => Just(Style::Literal)]
 }
 fn pos_s() -> impl Strategy<Value = Pos> + Clone {
-    prop_oneof![2 => Just(Pos::Root), 2 => Just(Pos::Field), 1 => Just(Pos::SeqItem)]
+    prop_oneof![3 => Just(Pos::Root), 3 => Just(Pos::Field), 1 => Just(Pos::SeqItem), 1 => Just(Pos::OptField)]
 }
 fn target_s() -> impl Strategy<Value = Target> + Clone {
     prop_oneof![Just(Target::F64), Just(Target::F32)]
@@ -1527,7 +1596,8 @@ fn damage_s() -> impl Strategy<Value = Damage> {
     ]
 }
 
-const SOUP: [&str; 64] = [
+const SOUP: [&str; 67] = [
+    "°", "世界", "µ",
     "1", "2", "0", "7", "2.5", "1e3", "1_0", ".5", "10.", "1e", "e", "E5", "pi", "tau", "inf", "nan", ".inf", ".nan", "PI", "Tau",
     "+", "-", "*", "/", "(", ")", "deg", "rad", "deg(", "rad(", "DEG(", ":", "1:30", "0:0:0.5", ":59", ":60", "_", ".", " ", "  ",
     "\t", "\n", "\r", "x", "0x1F", "infinity", "Infinity", "NaN", "é", "\u{a0}", "\u{c}", "\u{b}", "\u{2028}", "\u{feff}", "!", "#",
@@ -2028,21 +2098,21 @@ fn generate(ctx: &mut Ctx<C19>) {
     let common = || (style_s(), pos_s(), target_s());
 
     // --- random expressions ------------------------------------------------------------------
-    let strat = (expr_s(1, 2), ws_s(), tag_s(3), common())
+    let strat = (tidy_s(expr_s(1, 2)), prop_oneof![4 => Just(0u8), 1 => ws_s()], tag_s(3), common())
         .prop_map(|(e, t, tag, (style, pos, target))| mk(Body::Expr(e, t), tag, style, pos, target));
-    ctx.run_strategy("expr-random", 1, ctx.tier.pick(40_000, 500_000), &strat, &nt);
+    ctx.run_strategy("expr-random", 1, ctx.tier.pick(25_000, 400_000), &strat, &nt);
     flush(ctx, &st, "expr-random");
-    let strat = (expr_s(0, 0), ws_s(), tag_s(3), common())
+    let strat = (tidy_s(expr_s(0, 0)), prop_oneof![4 => Just(0u8), 1 => ws_s()], tag_s(3), common())
         .prop_map(|(e, t, tag, (style, pos, target))| mk(Body::Expr(e, t), tag, style, pos, target));
-    ctx.run_strategy("expr-arithmetic", 2, ctx.tier.pick(20_000, 300_000), &strat, &nt);
+    ctx.run_strategy("expr-arithmetic", 2, ctx.tier.pick(12_000, 250_000), &strat, &nt);
     flush(ctx, &st, "expr-arithmetic");
-    let strat = (unitized_s(), ws_s(), tag_s(12), common())
+    let strat = (tidy_s(unitized_s()), prop_oneof![4 => Just(0u8), 1 => ws_s()], tag_s(12), common())
         .prop_map(|(e, t, tag, (style, pos, target))| mk(Body::Expr(e, t), tag, style, pos, target));
-    ctx.run_strategy("expr-unitized", 3, ctx.tier.pick(15_000, 200_000), &strat, &nt);
+    ctx.run_strategy("expr-unitized", 3, ctx.tier.pick(10_000, 200_000), &strat, &nt);
     flush(ctx, &st, "expr-unitized");
-    let strat = (expr_s(1, 2), damage_s(), tag_s(3), common())
+    let strat = (tidy_s(expr_s(1, 2)), damage_s(), tag_s(3), common())
         .prop_map(|(e, d, tag, (style, pos, target))| mk(Body::Bad(e, d), tag, style, pos, target));
-    ctx.run_strategy("expr-damaged", 4, ctx.tier.pick(10_000, 150_000), &strat, &nt);
+    ctx.run_strategy("expr-damaged", 4, ctx.tier.pick(6_000, 120_000), &strat, &nt);
     flush(ctx, &st, "expr-damaged");
 
     // --- exhaustive three-operand expressions ------------------------------------------------
